@@ -222,7 +222,13 @@ let f _id vs =
     (* one compared answer *)
     let compare_answer ?(flagless=false) eng si ii (it : item) a (us : int list) (cc : int) run =
       (* BatchCheck outcomes carry no CycleDetected flag: `denied` stands for both *)
-      let mem_cls x set = List.mem x set || (flagless && x = AFn && List.mem AFc set) in
+      let mem_cls ?(swallow=false) x set =
+        List.mem x set || (flagless && x = AFn && List.mem AFc set)
+        (* Check/V1.v (and QueryCache.v on top of it) read all userset types of a relation through ONE condition
+           filter; the code gives every weight-2-eligible userset type its own iterator and filter (also under
+           the default strategy), so a condition error that the model sees swallowed -- trigger tr_swallow of
+           THIS request's evaluation -- can surface as the answer.  Admitted exactly there (cf. c02_oracle.ml). *)
+        || (swallow && x = AEc) in
       let p = (it.w, it.s) in
       let wh = Printf.sprintf "engine %d step %d %s" eng si (where p a) in
       if List.for_all (fun u -> u = 7) us && cc = 7 then ()
@@ -234,7 +240,9 @@ let f _id vs =
         let (set2, tr2) = a2 p a in
         let trall = { tr_excl_sub_cycle = tr1.tr_excl_sub_cycle || trc.tr_excl_sub_cycle || tr2.tr_excl_sub_cycle;
                       tr_swallow = tr1.tr_swallow || trc.tr_swallow || tr2.tr_swallow } in
-        let in_cached_model = (match cls_aout cc with Some x -> mem_cls x setc || mem_cls x set2 | None -> false) in
+        let in_cached_model = (match cls_aout cc with
+          | Some x -> mem_cls ~swallow:trc.tr_swallow x setc || mem_cls ~swallow:tr2.tr_swallow x set2
+          | None -> false) in
         (* the uncached engine itself may give the cached answer (which of several errors is reported, which
            branch of an intersection denies first: Check/V1.v returns the SET of possible outcomes) *)
         let same = same || (eng = 0 && List.exists (fun x -> api_of_aout x = api cc) set1) in
@@ -262,7 +270,7 @@ let f _id vs =
           List.iter (fun u ->
             match cls_aout u with
             | Some x when List.mem AFuel set1 -> diff (wh ^ " model out of fuel"); ignore x
-            | Some x -> if not (mem_cls x set1) then
+            | Some x -> if not (mem_cls ~swallow:tr1.tr_swallow x set1) then
                 diff (Printf.sprintf "%s: uncached impl=%s outside Check/V1 {%s}" wh (cls_s u) (set_s set1))
             | None -> if u <> 7 then diff (Printf.sprintf "%s: uncached impl=%s (unexpected class)" wh (cls_s u))) us;
           (match cls_aout cc with
@@ -273,7 +281,7 @@ let f _id vs =
            | None -> if cc <> 7 then diff (Printf.sprintf "%s: cached impl=%s (unexpected class)" wh (cls_s cc)));
           (* reference semantics *)
           (match sem_wrong p a u0 set1 with
-           | Some why -> by_trigger tr1 (match cls_aout u0 with Some x -> mem_cls x set1 | None -> false)
+           | Some why -> by_trigger tr1 (match cls_aout u0 with Some x -> mem_cls ~swallow:tr1.tr_swallow x set1 | None -> false)
                            (Printf.sprintf "%s uncached impl=%s: %s" wh (cls_s u0) why)
            | None -> ());
           (if same then match sem_wrong p a cc (setc @ set2) with
